@@ -58,11 +58,13 @@ async def open_kind(kind, ports, oport, uport):
     if kind in ("rev", "revmute"):
         c = await open_conn("127.0.0.1", ports[kind])
         return {"kind": kind, "c": c, "src": c.local[1]}
-    if kind == "http-udp":
+    if kind in ("http-udp", "http-udpbind"):
         # a UDP association carried over CONNECT with inline frames (Proxy-Protocol: udp)
         from .lib import http_connect_bytes, http_reply
         c = await open_conn("127.0.0.1", ports["http"])
-        c.write(http_connect_bytes("0.0.0.0", 0, [("Proxy-Protocol", "udp")]))
+        # "http-udpbind": the same with a Udp-Bind-Source header (feature UdpBind, full-cone source binding) - still a UDP association
+        extra = [("Udp-Bind-Source", "127.0.0.1:%d" % c.local[1])] if kind == "http-udpbind" else []
+        c.write(http_connect_bytes("0.0.0.0", 0, [("Proxy-Protocol", "udp")] + extra))
         await c.drain()
         st, hdrs = await http_reply(c)
         assert st == 200, st
@@ -434,8 +436,8 @@ async def main(args):
                 procs += [A, C]
                 await A.start()
                 await C.start()
-                for kind in ("http", "socks", "rev", "quic", "socks-udp", "revudp", "http-udp", "revmute"):
-                    T = t_udp if kind in ("socks-udp", "revudp", "http-udp") else t_tcp
+                for kind in ("http", "socks", "rev", "quic", "socks-udp", "revudp", "http-udp", "http-udpbind", "revmute"):
+                    T = t_udp if kind in ("socks-udp", "revudp", "http-udp", "http-udpbind") else t_tcp
                     if kind == "quic":
                         T = t_tcp  # enforced by A on the QUIC stream; C has timeouts disabled
                     if kind == "revmute" and cname != "idle6-udp6":
@@ -443,7 +445,7 @@ async def main(args):
                     elif cname == "absent":
                         pats = ["wiring-only"]
                     elif cname == "idle6-udp6":
-                        pats = ["burst"] if kind in ("http", "socks-udp", "http-udp", "rev") else ["fin-late"] if kind == "revmute" else []
+                        pats = ["burst"] if kind in ("http", "socks-udp", "http-udp", "http-udpbind", "rev") else ["fin-late"] if kind == "revmute" else []
                     elif cname == "zero":
                         pats = ["silent"] if (args.thorough or kind in ("http", "revudp")) else []
                     else:
